@@ -59,6 +59,11 @@ def handle : List String → String
         let (s', o) := acc.1.step op
         (s', match o with | some (sch, rows) => acc.2 ++ [showSchema sch ++ ":" ++ showRows rows] | none => acc.2)) (({} : Sheet), [])
       if outs.isEmpty then "-" else joinWith "|" outs
+  | ["lrecl", given, lens] =>
+    -- `FAC lrecl <given|-> <len,len,…>`: the sheet lrecl after each set_schema of the history
+    let g : Option Nat := if given = "-" then none else given.toNat?
+    let ls := (lens.splitOn ",").filterMap String.toNat?
+    joinWith "," (((EFile.mk g).run ls).2.map toString)
   | "life" :: ops =>
     let parse : String → Option LOp := fun
       | "open" => some .openFile | "iter" => some .iterate | "raise" => some .raise | "exit" => some .exit | "close" => some .close
